@@ -61,7 +61,10 @@ def run(ctx, rep, tier):
                      ["-printf '%s'" % x for x in ("a%pb", "%", "%q", "\\101x", "\\1234", "\\f", "\\", "%Ak", "%A", "%{fid}", "%{xattr:ab}", "x\\ny")])
     samples = []
     n_fam = 0
+    only = os.environ.get("VERIF_C14_ONLY")
     for name, items in families(tier):
+        if only and name not in only.split(","):
+            continue
         spec = ["-printf '"]
         chars = []
         for it in items:
